@@ -2,7 +2,8 @@
 //! recording inner tower service.
 use bytes::Bytes;
 use http::{HeaderMap, HeaderName, HeaderValue};
-use http_body_util::{BodyExt, Full};
+use http_body::Body as _;
+use http_body_util::BodyExt;
 use serde_json::{json, Value};
 use std::sync::{Arc, Mutex};
 use std::task::{Context, Poll};
@@ -12,7 +13,7 @@ use tonic::service::InterceptorLayer;
 use tonic::{Code, Status};
 use tower_layer::Layer;
 use tower_service::Service;
-use vcommon::body::{noop_waker, spin};
+use vcommon::body::{noop_waker, spin, Ev, ScriptBody};
 use vcommon::*;
 
 const IMPORTS: &str =
@@ -237,13 +238,15 @@ struct Seen {
 fn seen_tr(s: &Seen) -> Tr {
     Tr::L(vec![Tr::s(&s.method), Tr::s(&s.uri), Tr::n(s.version), hm_tr(&s.headers), ext_tr(&s.ext), Tr::b(&s.body)])
 }
+/// the inner service's answer: code 0 = Err(text); else status, headers, body data, body trailers
+type Resp = (u16, HeaderMap, Vec<u8>, Option<HeaderMap>);
 #[derive(Clone)]
 struct Recorder {
     calls: Arc<Mutex<Vec<Seen>>>,
-    resp: (u16, HeaderMap, Vec<u8>),
+    resp: Resp,
 }
 impl Service<http::Request<Vec<u8>>> for Recorder {
-    type Response = http::Response<Full<Bytes>>;
+    type Response = http::Response<ScriptBody<String>>;
     type Error = String;
     type Future = std::future::Ready<Result<Self::Response, String>>;
     fn poll_ready(&mut self, _: &mut Context<'_>) -> Poll<Result<(), String>> {
@@ -262,7 +265,11 @@ impl Service<http::Request<Vec<u8>>> for Recorder {
         if self.resp.0 == 0 {
             return std::future::ready(Err(String::from_utf8_lossy(&self.resp.2).to_string()));
         }
-        let mut res = http::Response::new(Full::new(Bytes::from(self.resp.2.clone())));
+        let mut evs = vec![Ev::Data(self.resp.2.clone())];
+        if let Some(t) = &self.resp.3 {
+            evs.push(Ev::Trailers(t.clone()));
+        }
+        let mut res = http::Response::new(ScriptBody::new(evs).0);
         *res.status_mut() = http::StatusCode::from_u16(self.resp.0).unwrap();
         *res.headers_mut() = self.resp.1.clone();
         std::future::ready(Ok(res))
@@ -302,7 +309,7 @@ fn build_status(rj: &(u32, String, Vec<u8>, Vec<Op>)) -> (Status, HeaderMap) {
         h,
     )
 }
-fn case(out: &mut Out, rq: Req, act: Action, resp: (u16, HeaderMap, Vec<u8>), via_layer: bool, corpus: bool) {
+fn case(out: &mut Out, rq: Req, act: Action, resp: Resp, via_layer: bool, corpus: bool) {
     let calls = Arc::new(Mutex::new(vec![]));
     let tap = Arc::new(Mutex::new(Tap::default()));
     let inner = Recorder { calls: calls.clone(), resp: resp.clone() };
@@ -347,8 +354,16 @@ fn case(out: &mut Out, rq: Req, act: Action, resp: (u16, HeaderMap, Vec<u8>), vi
     let uri_s = hreq.uri().to_string();
     let method_s = hreq.method().as_str().to_string();
 
-    // what came back: Ok(status, version, headers, body frames, had trailers) / Err(inner error)
-    type Back = Result<(u16, u32, HeaderMap, Vec<u8>, usize), String>;
+    // what came back: Ok(status, version, headers, body) / Err(inner error)
+    #[derive(Debug)]
+    struct BodySeen {
+        data: Vec<u8>,
+        trailers: Option<HeaderMap>,
+        frames: usize,
+        end_before: bool,
+        size_exact: Option<u64>,
+    }
+    type Back = Result<(u16, u32, HeaderMap, BodySeen), String>;
     let res: Result<Back, String> = catch(std::panic::AssertUnwindSafe(|| {
         let w = noop_waker();
         let mut cx = Context::from_waker(&w);
@@ -365,24 +380,31 @@ fn case(out: &mut Out, rq: Req, act: Action, resp: (u16, HeaderMap, Vec<u8>), vi
             Err(e) => Err(e),
             Ok(r) => {
                 let (p, mut body) = r.into_parts();
-                let mut data = vec![];
-                let mut frames = 0usize;
+                let mut b = BodySeen { data: vec![], trailers: None, frames: 0, end_before: body.is_end_stream(), size_exact: body.size_hint().exact() };
                 spin(
                     async {
                         while let Some(fr) = body.frame().await {
-                            frames += 1;
-                            if let Ok(d) = fr.expect("body error").into_data() {
-                                data.extend_from_slice(&d);
+                            b.frames += 1;
+                            match fr.expect("body error").into_data() {
+                                Ok(d) => b.data.extend_from_slice(&d),
+                                Err(fr) => b.trailers = fr.into_trailers().ok(),
                             }
                         }
                     },
                     100,
                 )
                 .expect("body hangs");
-                Ok((p.status.as_u16(), version_n(p.version), p.headers, data, frames))
+                Ok((p.status.as_u16(), version_n(p.version), p.headers, b))
             }
         }
     }));
+    let body_tr = |b: &BodySeen| {
+        Tr::L(vec![
+            Tr::L(if b.frames == 0 { vec![] } else { vec![Tr::L(vec![Tr::b(&b.data), Tr::opt(b.trailers.as_ref().map(hm_tr))])] }),
+            Tr::bool(b.end_before),
+            Tr::opt(b.size_exact.map(Tr::n)),
+        ])
+    };
     let seen: Vec<Seen> = calls.lock().unwrap().clone();
     let tap = tap.lock().unwrap();
 
@@ -393,8 +415,8 @@ fn case(out: &mut Out, rq: Req, act: Action, resp: (u16, HeaderMap, Vec<u8>), vi
             why = Some(format!("panic: {}", p));
             Tr::L(vec![Tr::n(99u8)])
         }
-        Ok(Err(e)) => Tr::L(vec![Tr::n(1u8), Tr::n(0u8), hm_tr(&HeaderMap::new()), Tr::s(e)]),
-        Ok(Ok((code, ver, h, data, _))) => {
+        Ok(Err(e)) => Tr::L(vec![Tr::n(3u8), Tr::s(e)]),
+        Ok(Ok((code, ver, h, body))) => {
             if act.reject.is_some() {
                 Tr::L(vec![
                     Tr::n(2u8),
@@ -402,9 +424,10 @@ fn case(out: &mut Out, rq: Req, act: Action, resp: (u16, HeaderMap, Vec<u8>), vi
                     Tr::n(*ver),
                     hm_tr(h),
                     Tr::opt(Status::from_header_map(h).as_ref().map(status_tr)),
+                    body_tr(body),
                 ])
             } else {
-                Tr::L(vec![Tr::n(1u8), Tr::n(*code), hm_tr(h), Tr::b(data)])
+                Tr::L(vec![Tr::n(1u8), Tr::n(*code), hm_tr(h), body_tr(body)])
             }
         }
     };
@@ -456,7 +479,7 @@ fn case(out: &mut Out, rq: Req, act: Action, resp: (u16, HeaderMap, Vec<u8>), vi
                     // the inner answer is passed on
                     match &res {
                         Ok(Err(e)) if resp.0 == 0 && e.as_bytes() == &String::from_utf8_lossy(&resp.2).as_bytes()[..] => {}
-                        Ok(Ok((code, _, h, data, _))) if *code == resp.0 && h == &resp.1 && data == &resp.2 => {}
+                        Ok(Ok((code, _, h, b))) if *code == resp.0 && h == &resp.1 && b.data == resp.2 && b.trailers == resp.3 && !b.end_before && b.size_exact.is_none() => {}
                         _ if why.is_none() => why = Some("the inner service's answer was not passed on unchanged".into()),
                         _ => {}
                     }
@@ -468,7 +491,7 @@ fn case(out: &mut Out, rq: Req, act: Action, resp: (u16, HeaderMap, Vec<u8>), vi
                     why = Some("inner service invoked although the interceptor rejected".into());
                 } else {
                     match &res {
-                        Ok(Ok((code, _ver, h, data, frames))) => {
+                        Ok(Ok((code, _ver, h, body))) => {
                             let back = Status::from_header_map(h);
                             if *code != 200 {
                                 why = Some(format!("HTTP status {}", code));
@@ -476,23 +499,29 @@ fn case(out: &mut Out, rq: Req, act: Action, resp: (u16, HeaderMap, Vec<u8>), vi
                                 why = Some("content-type is not exactly application/grpc".into());
                             } else if h.get_all("grpc-status").iter().count() != 1 {
                                 why = Some("not exactly one grpc-status".into());
-                            } else if !data.is_empty() || *frames != 0 {
+                            } else if !body.data.is_empty() || body.frames != 0 || body.trailers.is_some() {
                                 why = Some("body is not empty".into());
+                            } else if !body.end_before || body.size_exact != Some(0) {
+                                why = Some("the empty body does not announce itself as ended / of size 0".into());
+                            } else if mdh.contains_key("grpc-status-details-bin") {
+                                // outside the premises of c12_reject_status_recovered (a user entry under the
+                                // protocol name grpc-status-details-bin): only the wire-level clauses above apply
                             } else {
                                 match back {
                                     None => why = Some("no status in the response headers".into()),
                                     Some(b) => {
-                                        let has_details_key = mdh.contains_key("grpc-status-details-bin");
                                         if b.code() != st.code() {
                                             why = Some(format!("code {:?} read back as {:?}", st.code(), b.code()));
                                         } else if b.message() != st.message() {
                                             why = Some("message changed".into());
-                                        } else if !has_details_key && b.details() != st.details() {
+                                        } else if b.details() != st.details() {
                                             why = Some("details changed".into());
                                         } else {
+                                            // metadata: exactly the status metadata minus the six reserved names,
+                                            // plus the content-type tonic wrote
                                             let bm = b.metadata().clone().into_headers();
                                             for k in mdh.keys() {
-                                                if is_reserved(k.as_str()) || k.as_str() == "grpc-status-details-bin" {
+                                                if is_reserved(k.as_str()) {
                                                     continue;
                                                 }
                                                 let a: Vec<_> = mdh.get_all(k).iter().collect();
@@ -502,13 +531,12 @@ fn case(out: &mut Out, rq: Req, act: Action, resp: (u16, HeaderMap, Vec<u8>), vi
                                                 }
                                             }
                                             for k in bm.keys() {
-                                                if !mdh.contains_key(k) && k.as_str() != "content-type" {
+                                                if k.as_str() == "content-type" {
+                                                    if bm.get_all(k).iter().map(|v| v.as_bytes()).collect::<Vec<_>>() != vec![b"application/grpc"] {
+                                                        why = Some("recovered content-type is not tonic's".into());
+                                                    }
+                                                } else if !mdh.contains_key(k) || is_reserved(k.as_str()) {
                                                     why = Some(format!("status metadata {} appeared", k));
-                                                }
-                                            }
-                                            for k in RESERVED {
-                                                if k != "content-type" && bm.contains_key(k) {
-                                                    why = Some(format!("reserved name {} in the recovered metadata", k));
                                                 }
                                             }
                                         }
@@ -540,7 +568,7 @@ fn case(out: &mut Out, rq: Req, act: Action, resp: (u16, HeaderMap, Vec<u8>), vi
         reject_coq,
         resp.0,
         coq_hm(&resp.1),
-        coq_bytes(&resp.2),
+        format!("({}, {})", coq_bytes(&resp.2), coq_opt(&resp.3, |t| coq_hm(t))),
         coq_bytes(method_s.as_bytes()),
         coq_bytes(uri_s.as_bytes()),
         version_n(rq.version),
@@ -570,7 +598,7 @@ fn case(out: &mut Out, rq: Req, act: Action, resp: (u16, HeaderMap, Vec<u8>), vi
             "ext": [rq.ext.0, rq.ext.1], "body": hex(&rq.body),
             "action": {"fresh": act.fresh, "ops": ops_json(&act.ops), "ext": act.ext.as_ref().map(|e| json!([e.0, e.1])),
                        "reject": act.reject.as_ref().map(|r| json!([r.0, hex(r.1.as_bytes()), hex(&r.2), ops_json(&r.3)]))},
-            "inner_response": [resp.0, hm_json(&resp.1), hex(&resp.2)], "via_layer": via_layer,
+            "inner_response": [resp.0, hm_json(&resp.1), hex(&resp.2), resp.3.as_ref().map(hm_json)], "via_layer": via_layer,
         }),
         model,
         impl_obs: obs,
@@ -608,7 +636,7 @@ fn gen_req(r: &mut Rng) -> Req {
         body,
     }
 }
-fn gen_resp(r: &mut Rng) -> (u16, HeaderMap, Vec<u8>) {
+fn gen_resp(r: &mut Rng) -> Resp {
     let code = *r.pick(&[200u16, 200, 200, 404, 500, 204, 0]);
     let mut h = HeaderMap::new();
     if code != 0 {
@@ -619,7 +647,17 @@ fn gen_resp(r: &mut Rng) -> (u16, HeaderMap, Vec<u8>) {
     }
     let n = r.range(0, 6) as usize;
     let body = if code == 0 { b"inner failed".to_vec() } else { r.bytes(n) };
-    (code, h, body)
+    let trailers = if code != 0 && r.chance(1, 2) {
+        let mut t = HeaderMap::new();
+        t.insert("grpc-status", HeaderValue::from_static("0"));
+        if r.chance(1, 2) {
+            t.append("x-trailer", HeaderValue::from_static("t"));
+        }
+        Some(t)
+    } else {
+        None
+    };
+    (code, h, body, trailers)
 }
 
 fn op(t: u8, k: &str, v: &[u8]) -> Op {
@@ -649,7 +687,9 @@ fn main() {
     let ok_resp = || {
         let mut h = HeaderMap::new();
         h.insert("content-type", HeaderValue::from_static("application/grpc"));
-        (200u16, h, b"\x00\x00\x00\x00\x00".to_vec())
+        let mut t = HeaderMap::new();
+        t.insert("grpc-status", HeaderValue::from_static("0"));
+        (200u16, h, b"\x00\x00\x00\x00\x00".to_vec(), Some(t))
     };
     let acts = vec![
         Action { fresh: false, ops: vec![], ext: None, reject: None },
